@@ -121,6 +121,11 @@ func wlRunCase(c *wlCase, backend string, rt node.RootType, st *wlStats, maxAcce
 	add := func(kind, msg string, v any) {
 		out = append(out, wlFinding{Kind: kind, Backend: backend, Root: fmt.Sprint(rt), Msg: msg, Case: map[string]any{"m1": c.M1, "ops": c.Ops, "m2": c.M2}, Variant: v})
 	}
+	if st.cases.Load()%4 == 1 {
+		if msg := wlConverging(ctx, c, backend, rt, st); msg != "" {
+			add("served-wrong", msg, nil)
+		}
+	}
 	ndbA, r1, err := wlSeed(ctx, backend, rt, c.M1)
 	if err != nil {
 		add("error", "seed: "+err.Error(), nil)
@@ -374,7 +379,125 @@ func wlNoopOverwrite(c *wlCase) bool {
 	return false
 }
 
+// wlConverging: two pending candidates A (the case's batch) and B (another batch) of version 1, both continued in version 2 by
+// batches that lead to the same contents, so that the second commit of version 2 finds its root already present.  Whatever the
+// database serves for (A, C) and for (B, C) must give C when applied at its start root; it may decline either.
+func wlConverging(ctx context.Context, c *wlCase, backend string, rt node.RootType, st *wlStats) string {
+	ndb, r1, err := wlSeed(ctx, backend, rt, c.M1)
+	if err != nil {
+		return ""
+	}
+	defer ndb.Close()
+	apply := func(t mkvs.Tree) error {
+		for _, op := range c.Ops {
+			var e error
+			if op.A == "ins" {
+				v := []byte(op.V)
+				if v == nil {
+					v = []byte{}
+				}
+				e = t.Insert(ctx, op.K, v)
+			} else {
+				e = t.Remove(ctx, op.K)
+			}
+			if e != nil {
+				return e
+			}
+		}
+		return nil
+	}
+	commit := func(t mkvs.Tree, version uint64) (node.Root, error) {
+		_, h, e := t.Commit(ctx, mkNs, version)
+		t.Close()
+		return node.Root{Namespace: mkNs, Version: version, Type: rt, Hash: h}, e
+	}
+	ta := mkvs.NewWithRoot(nil, ndb, r1)
+	if err = apply(ta); err != nil {
+		ta.Close()
+		return ""
+	}
+	ra, err := commit(ta, 1)
+	if err != nil {
+		return ""
+	}
+	tb := mkvs.NewWithRoot(nil, ndb, r1)
+	if err = tb.Insert(ctx, []byte("zz-fork"), []byte("b")); err != nil {
+		tb.Close()
+		return ""
+	}
+	rb, err := commit(tb, 1)
+	if err != nil || rb.Hash.Equal(&ra.Hash) {
+		return ""
+	}
+	// A -> C: one more key; B -> C: the case's batch, the fork's key removed, the same new key
+	tac := mkvs.NewWithRoot(nil, ndb, ra)
+	if err = tac.Insert(ctx, []byte("zz-conv"), []byte("c")); err != nil {
+		tac.Close()
+		return ""
+	}
+	rc, err := commit(tac, 2)
+	if err != nil {
+		return "" // (a database may refuse to build on a version that is not finalized)
+	}
+	tbc := mkvs.NewWithRoot(nil, ndb, rb)
+	if err = apply(tbc); err == nil {
+		if err = tbc.Remove(ctx, []byte("zz-fork")); err == nil {
+			err = tbc.Insert(ctx, []byte("zz-conv"), []byte("c"))
+		}
+	}
+	if err != nil {
+		tbc.Close()
+		return ""
+	}
+	rc2, err := commit(tbc, 2)
+	if err != nil || !rc2.Hash.Equal(&rc.Hash) {
+		return ""
+	}
+	st.converging.Add(1)
+	for _, pair := range [][2]node.Root{{ra, rc}, {rb, rc}, {r1, ra}, {r1, rb}} {
+		it, gerr := ndb.GetWriteLog(ctx, pair[0], pair[1])
+		if gerr != nil {
+			continue
+		}
+		var served writelog.WriteLog
+		ok := true
+		for {
+			more, nerr := it.Next()
+			if nerr != nil {
+				ok = false
+				break
+			}
+			if !more {
+				break
+			}
+			e, verr := it.Value()
+			if verr != nil {
+				ok = false
+				break
+			}
+			served = append(served, e)
+		}
+		if !ok {
+			continue
+		}
+		st.convergingServed.Add(1)
+		t2 := mkvs.NewWithRoot(nil, ndb, pair[0])
+		aerr := t2.ApplyWriteLog(ctx, writelog.NewStaticIterator(served))
+		var h hash.Hash
+		if aerr == nil {
+			_, h, aerr = t2.Commit(ctx, mkNs, pair[1].Version, mkvs.NoPersist())
+		}
+		t2.Close()
+		if aerr != nil || !h.Equal(&pair[1].Hash) {
+			return fmt.Sprintf("converging candidates: log served for (%s v%d, %s v%d) %s applied at the first root gives %s (err %v)",
+				pair[0].Hash.String()[:12], pair[0].Version, pair[1].Hash.String()[:12], pair[1].Version, wlString(served), h, aerr)
+		}
+	}
+	return ""
+}
+
 type wlStats struct {
+	converging, convergingServed                                                            atomic.Int64
 	cases, servedPending, served, notServed, logDrift, applies, accepted, rejected, already atomic.Int64
 	mu                                                                                      sync.Mutex
 	declines                                                                                map[string]int // "<same root?>/<empty r2?>: error text" -> count
@@ -478,7 +601,7 @@ func wlogReplay(args []string) int {
 	defer w.Close()
 	w.Write(mustJSON(map[string]any{
 		"cases": nCases, "classes": classes, "findings": findings, "samples": samples,
-		"served": st.served.Load(), "served_pending": st.servedPending.Load(), "not_served": st.notServed.Load(), "declines": st.declines, "log_drift": st.logDrift.Load(),
+		"served": st.served.Load(), "served_pending": st.servedPending.Load(), "converging_forks": st.converging.Load(), "converging_logs_served": st.convergingServed.Load(), "not_served": st.notServed.Load(), "declines": st.declines, "log_drift": st.logDrift.Load(),
 		"applies": st.applies.Load(), "expected_accept": st.accepted.Load(), "expected_reject": st.rejected.Load(), "expected_root_already_present": st.already.Load(),
 	}))
 	return 0
